@@ -465,6 +465,8 @@ def run(ctx: Ctx) -> None:
     n_init = ctx.n(30, 300)
     mle_model_budget = ctx.n(1, 10)
     for i in range(n_proc):
+        if ctx.out_of_time():
+            break
         case = gen_proc_case(ctx, rng, i)
         if case["n"] == 2 and case["mle"] and mle_model_budget > 0:
             case["mle_model"] = True
@@ -488,6 +490,8 @@ def run(ctx: Ctx) -> None:
         if probs:
             report(ctx, case, probs)
     for _ in range(n_ref):
+        if ctx.out_of_time():
+            break
         n = rng.choice([1, 1, 2])
         case = {"stream": "ref", "n": n, "prog": tm.rand_gate_program(rng, n, max_len=5, max_her=0)}
         case["prog"] = [[g[0], g[1], g[2], {"impl": "ps"}] if g[0] in ("CZ", "CNOT") else g for g in case["prog"]]
@@ -497,12 +501,16 @@ def run(ctx: Ctx) -> None:
         if probs:
             report(ctx, case, probs)
     for _ in range(n_data):
+        if ctx.out_of_time():
+            break
         case = gen_data_case(ctx, rng)
         probs = run_data(ctx, case)
         ctx.case(json.dumps(case, default=str)[:2000], False)
         if probs:
             report(ctx, case, probs)
     for _ in range(n_init):
+        if ctx.out_of_time():
+            break
         case = c15.gen_init_case(ctx, rng)
         case["n"] = min(case["n"], 2)
         case["modes"] = rng.choice([2 * case["n"], 2 * case["n"], 2 * case["n"] + 1, 2 * case["n"] + 2])
